@@ -48,32 +48,41 @@ ROWS = ["R_IN", "R_CENTER", "R_OUT", "K", "RHO_CP", "TEMP", "VOL"]
 PI = Rat.atom("pi")
 
 
-def init_env(prog: Program):
+def init_envs(prog: Program):
+    """the attribute values the constructor leaves, one environment per path through it (a constructor with a branch - e.g.
+    a grid adapted to a slim annulus - is analysed once per branch)"""
     fi = prog.func(f"{CLS}.__init__")
     eng = Engine(prog, fi, Hooks())
     st = State()
     st.env["single_u_tube"] = Rat.atom("single_u_tube")
-    fin = eng.run_function(st)
-    if len(fin) != 1:
-        raise AnalysisError(f"{fi.qualname}: constructor is not straight-line")
-    env = {k: v for k, v in fin[0].env.items() if k.startswith("self.")}
-    # methods read the tube through self.single_u_tube
-    out = {}
-    env.pop("self.single_u_tube", None)  # keep reads through self.single_u_tube symbolic
-    for k, v in env.items():
-        if isinstance(v, Rat):
-            out[k] = v.subs({a: Rat.atom("self." + a) for a in v.all_atoms() if a.startswith("single_u_tube.")})
-        else:
-            out[k] = v
-    return fi, out
+    fin = [f for f in eng.run_function(st) if f.exit is None or f.exit[0] == "return"]
+    if not fin or len(fin) > 8:
+        raise AnalysisError(f"{fi.qualname}: {len(fin)} paths through the constructor")
+    envs = []
+    for f in fin:
+        env = {k: v for k, v in f.env.items() if k.startswith("self.")}
+        out = {}
+        env.pop("self.single_u_tube", None)  # keep reads through self.single_u_tube symbolic
+        for k, v in env.items():
+            if isinstance(v, Rat):
+                out[k] = v.subs({a: Rat.atom("self." + a) for a in v.all_atoms() if a.startswith("single_u_tube.")})
+            else:
+                out[k] = v
+        envs.append((out, " & ".join(k for k, tr, ln in f.trail)[:120]))
+    return fi, envs
 
 
 def check(prog: Program, tier: str) -> Result:
     res = Result(PROP)
-    ifi, env0 = init_env(prog)
+    ifi, envs = init_envs(prog)
     res.analysed(ifi.qualname)
-    _cells(prog, res, env0)
-    _stencil(prog, res, env0)
+    for env0, trail in envs:
+        n0 = len(res.findings)
+        _cells(prog, res, env0)
+        _stencil(prog, res, env0)
+        for f_ in res.findings[n0:]:
+            if trail and "constructor path" not in f_.message:
+                f_.message += f" (on the constructor path [{trail}])"
     _frame(prog, res, ifi)
     return res
 
@@ -773,6 +782,10 @@ _LOOP_OLD = """        while True:
 """
 
 VARIANTS = [
+    Variant("slim annulus: the grout cell count is reduced after the cell thickness was computed (seeded C10_g)", "break",
+            [(RN, "        # other\n        self.init_temp = 20\n", "        if self.thickness_grout_cell < 1.0e-3:\n            self.num_grout_cells = max(4, int((self.r_borehole - self.r_out_tube) / 1.0e-3))\n            self.num_cells = sum((self.num_fluid_cells, self.num_conv_cells, self.num_pipe_cells, self.num_grout_cells, self.num_soil_cells))\n            self.bh_wall_idx = sum((self.num_fluid_cells, self.num_conv_cells, self.num_pipe_cells, self.num_grout_cells))\n        # other\n        self.init_temp = 20\n")], "R10.1"),
+    Variant("slim annulus: the grout cell count is reduced and the cell thickness recomputed", "benign",
+            [(RN, "        # other\n        self.init_temp = 20\n", "        if self.thickness_grout_cell < 1.0e-3:\n            self.num_grout_cells = max(4, int((self.r_borehole - self.r_out_tube) / 1.0e-3))\n            self.thickness_grout_cell = (self.r_borehole - self.r_out_tube) / self.num_grout_cells\n            self.num_cells = sum((self.num_fluid_cells, self.num_conv_cells, self.num_pipe_cells, self.num_grout_cells, self.num_soil_cells))\n            self.bh_wall_idx = sum((self.num_fluid_cells, self.num_conv_cells, self.num_pipe_cells, self.num_grout_cells))\n        # other\n        self.init_temp = 20\n")]),
     Variant("partial_init refreshes the borehole radius and the soil cells but not the grout cells (seeded C10_e)", "break", [(RN, "        self.calc_time_in_sec = max([self.t_s * exp(-8.6), 49.0 * SEC_IN_HR])\n\n    def fill_radial_cells", "        self.calc_time_in_sec = max([self.t_s * exp(-8.6), 49.0 * SEC_IN_HR])\n        self.r_borehole = single_u_tube.b.r_b\n        self.thickness_soil_cell = (self.r_far_field - self.r_borehole) / self.num_soil_cells\n\n    def fill_radial_cells")], "R10.9"),
     Variant("partial_init refreshes the borehole radius and both regions that touch it", "benign", [(RN, "        self.calc_time_in_sec = max([self.t_s * exp(-8.6), 49.0 * SEC_IN_HR])\n\n    def fill_radial_cells", "        self.calc_time_in_sec = max([self.t_s * exp(-8.6), 49.0 * SEC_IN_HR])\n        self.r_borehole = single_u_tube.b.r_b\n        self.thickness_soil_cell = (self.r_far_field - self.r_borehole) / self.num_soil_cells\n        self.thickness_grout_cell = (self.r_borehole - self.r_out_tube) / self.num_grout_cells\n\n    def fill_radial_cells")]),
     Variant("partial_init recomputes the cell thicknesses before it refreshes the radius they depend on", "break", [(RN, "        self.calc_time_in_sec = max([self.t_s * exp(-8.6), 49.0 * SEC_IN_HR])\n\n    def fill_radial_cells", "        self.calc_time_in_sec = max([self.t_s * exp(-8.6), 49.0 * SEC_IN_HR])\n        self.thickness_soil_cell = (self.r_far_field - self.r_borehole) / self.num_soil_cells\n        self.thickness_grout_cell = (self.r_borehole - self.r_out_tube) / self.num_grout_cells\n        self.r_borehole = single_u_tube.b.r_b\n\n    def fill_radial_cells")], "R10.9"),
